@@ -144,7 +144,8 @@ PARSER_CLASSES = [
       ('exceptions', 'MissedCloseException'): 'HTMLValidationException',
       ('exceptions', 'InvalidAttributeNameException'): 'HTMLValidationException'},
      {'isValidAttributeName': ('Tags.py', 'tags')}, ('AdvancedHTMLParser', 'Parser.py')),
-    ('Tags.py', 'advanced_tag', 'AdvancedTag', ['getStartTag'], (), {}, {'escapeQuotes': ('utils.py', 'utils')}, None),
+    ('Tags.py', 'advanced_tag', 'AdvancedTag', ['getStartTag', 'getEndTag'], (), {}, {'escapeQuotes': ('utils.py', 'utils')},
+     None),
 ]
 # PARSER_CLASSES classes that override dot access: class -> (the exact first statement `__getattribute__` must have — then
 # `self.f` is the plain attribute whenever the object has one —, module constants (sets of texts) the methods may name, with
@@ -152,7 +153,8 @@ PARSER_CLASSES = [
 # methods of such a class must not assign to `self.<name>` (`__setattr__` is not modelled).
 PARSER_CLASS_DOT_ACCESS = {
     'AdvancedTag': ('try:\n    return object.__getattribute__(self, name)\nexcept:\n    pass',
-                    {'TAG_ITEM_BINARY_ATTRIBUTES': 'constants.py'}),
+                    {'TAG_ITEM_BINARY_ATTRIBUTES': 'constants.py', 'PREFORMATTED_TAGS': 'constants.py',
+                     'PRESERVE_CONTENTS_TAGS': 'constants.py'}),
 }
 # special methods a PARSER_CLASSES class must not define (`self.f` is then the plain attribute)
 PARSER_CLASS_FORBIDDEN = ('__getattr__', '__getattribute__', '__setattr__')
@@ -610,6 +612,12 @@ class _FunTranslator(object):
                 self.fail(n, 'comprehension other than [e for a, b in d.items()]')
             return '(.compItems %s %s %s %s)' % (lean_str(g.target.elts[0].id), lean_str(g.target.elts[1].id),
                                                  self.expr(n.elt, module_scope), self.expr(g.iter.func.value, module_scope))
+        if self.pcls is not None and isinstance(n, ast.Call) and isinstance(n.func, ast.Name) and n.func.id == 'isinstance' \
+                and 'isinstance' not in self.mod.rebound and 'isinstance' not in self.locals and not n.keywords \
+                and len(n.args) == 2 and isinstance(n.args[1], ast.Name) and n.args[1].id == self.pcls['name'] \
+                and n.args[1].id not in self.locals and not isinstance(n.args[0], ast.Starred):
+            # isinstance(x, C) with C the class being dumped
+            return '(.isInstance %s %s)' % (self.expr(n.args[0], module_scope), lean_str(n.args[1].id))
         if self.pcls is not None and isinstance(n, ast.ListComp):
             g = n.generators[0] if len(n.generators) == 1 else None
             if g is None or g.ifs or g.is_async or not isinstance(g.target, ast.Name):
